@@ -8,6 +8,7 @@ import (
 	"sort"
 	"strings"
 
+	"github.com/lindb/lindb/kv"
 	"github.com/lindb/lindb/kv/table"
 
 	"github.com/lindb/lindb/verif/internal/imgfs"
@@ -259,6 +260,15 @@ func (h *hist) verifyImage(img imgfs.Image, before map[int]map[int64]string, res
 	for n := 1; n <= restarts; n++ {
 		ctx := fmt.Sprintf(what+"-recovery-and-idle-restart-%d", n)
 		marksBefore, refsBefore := fmt.Sprint(marksOf(books)), refSet(v.m, tv)
+		// before the restart the target families may commit something of their own (a compaction job: a single table is
+		// moved to level 1, several are merged): later records in the target store's manifest, replayed by the next open
+		// after the snapshot that carries the surviving references. Data, marks and references stay what they were.
+		switch (img.Index + n) % 3 {
+		case 1:
+			res.count(what+".target_compaction_jobs_between_recovery_and_retry", v.compactTargetsForced(true))
+		case 2:
+			res.count(what+".target_compaction_jobs_between_recovery_and_retry", v.compactTargetsForced(false))
+		}
 		v.env.close()
 		e, err := openEnv(img.Dir, nil)
 		if err != nil {
@@ -347,6 +357,79 @@ func (h *hist) verifyImage(img imgfs.Image, before map[int]map[int64]string, res
 	v.checkNotes(rollupCtx, tv)
 	v.checkBookkeeping(rollupCtx, tv, books)
 	res.count(what+".images_rolled_up_to_quiescence_after_recovery", 1)
+	if restarts == 0 {
+		return
+	}
+
+	// ---- 3. one more restart after the repeated rollup (the manifests now also hold the records of the retry and of the
+	// reference cleanup), rollup again: nothing changes any more
+	ctx := what + "-recovery-retry-reopen-and-rollup-again"
+	v.env.close()
+	e, err = openEnv(img.Dir, nil)
+	if err != nil {
+		res.violation("C04/"+what+"/engine-does-not-open/after-retry", fmt.Sprintf("%s: %v", v.stepOp, err), h.witness(map[string]interface{}{"image": label}))
+		return
+	}
+	v.env = e
+	if err := v.bind(); err != nil {
+		res.violation("C04/"+what+"/source-family-not-recovered/after-retry", fmt.Sprintf("%s: %v", v.stepOp, err), h.witness(map[string]interface{}{"image": label}))
+		return
+	}
+	for _, st := range v.srcStores() {
+		st.ForceRollup()
+	}
+	v.waitAllIdle()
+	books = v.books()
+	tv, err = v.readTargets()
+	if err != nil {
+		res.violation("C04/"+what+"/target-unreadable/after-retry", fmt.Sprintf("%s: %v", v.stepOp, err), h.witness(map[string]interface{}{"image": label}))
+		return
+	}
+	for _, iv := range v.m.targets {
+		if v.tainted[iv] {
+			continue
+		}
+		r := v.m.compare(iv, tv.obs[iv], v.inclFor(iv), 6)
+		v.countCompare(iv, r)
+		if r.Mismatch > 0 {
+			v.reportDiffs(iv, ctx, r)
+		}
+	}
+	v.checkNotes(ctx, tv)
+	v.checkBookkeeping(ctx, tv, books)
+	res.count(what+".images_reopened_and_rolled_up_again_after_the_retry", 1)
+}
+
+// compactTargetsForced starts a compaction job on every target family that holds tables (forced: also a single level-0
+// table, which is moved to level 1; otherwise Family.Compact, which needs two) and waits for them.
+func (h *hist) compactTargetsForced(forced bool) int {
+	n := 0
+	for _, iv := range h.m.targets {
+		for _, st := range h.targetStores(iv) {
+			for _, name := range st.ListFamilyNames() {
+				kf := st.GetFamily(name)
+				if kf == nil {
+					continue
+				}
+				l0 := 0
+				for _, lvl := range readBook(kf).Level {
+					if lvl == 0 {
+						l0++
+					}
+				}
+				switch {
+				case forced && l0 >= 1:
+					kv.VerifFamilyCompact(kf)
+					n++
+				case !forced && l0 >= 2:
+					kf.Compact()
+					n++
+				}
+			}
+		}
+	}
+	h.waitAllIdle()
+	return n
 }
 
 func marksOf(books []famBook) []string {
